@@ -5,7 +5,9 @@
 //
 // For every input line exactly one output line, flushed immediately:
 //   CLASS FORMAT SEED VARIANT OK n=<number of observables compared> [note=<case specific output without blanks>]
-//   CLASS FORMAT SEED VARIANT DIFF <observable>: orig=<value> restored=<value>
+//   CLASS FORMAT SEED VARIANT DIFF <observable>: orig=<value> restored=<value> [also=<obs>|<obs>...] [then=CRASH-sig=<n>]
+//        the FIRST differing observable; also= lists (index-stripped, distinct, at most 12) the further observables that
+//        both objects report with different values; then= : the case crashed later, the difference was recorded before
 //   CLASS FORMAT SEED VARIANT EXC <message>
 //   CLASS FORMAT SEED VARIANT SKIP unknown-case
 //   CLASS FORMAT SEED VARIANT CRASH sig=<n>      (fatal signal inside the case)
@@ -21,6 +23,7 @@
 #include <exception>
 #include <fstream>
 #include <iostream>
+#include <map>
 #include <unistd.h>
 
 using namespace c18;
@@ -37,6 +40,57 @@ static void onSignal(int sig) {
 	static const char msg[] = "CRASH outside-case\n";
 	ssize_t r = write(1, msg, sizeof msg - 1); (void)r;
 	_exit(3);
+}
+
+// observable name without indices: eval[0][1] -> eval
+static std::string stripIdx(std::string const& n) {
+	std::string r; int d = 0;
+	for (std::size_t i = 0; i != n.size(); ++i) {
+		if (n[i] == '[') ++d;
+		else if (n[i] == ']') { if (d) --d; }
+		else if (!d) r += n[i];
+	}
+	return r;
+}
+
+// compares the two observable lists; "" when they agree completely
+static std::string compareObs(Obs const& a, Obs const& b, bool complete, std::size_t& nCompared) {
+	std::size_t n = a.items.size() < b.items.size() ? a.items.size() : b.items.size();
+	nCompared = n;
+	std::size_t k = 0;
+	for (; k != n; ++k)
+		if (a.items[k].first != b.items[k].first || a.items[k].second != b.items[k].second) break;
+	std::string result;
+	if (k != n) {
+		if (a.items[k].first == b.items[k].first)
+			result = "DIFF " + a.items[k].first + ": orig=" + a.items[k].second + " restored=" + b.items[k].second;
+		else // the two observable lists diverge structurally (e.g. different sizes reported earlier)
+			result = "DIFF " + a.items[k].first + ": orig=" + a.items[k].second + " restored=<" + b.items[k].first + "=" + b.items[k].second + ">";
+	} else if (complete && a.items.size() != b.items.size()) {
+		bool aLonger = a.items.size() > b.items.size();
+		std::pair<std::string, std::string> const& e = aLonger ? a.items[n] : b.items[n];
+		result = "DIFF " + e.first + ": orig=" + (aLonger ? e.second : std::string("<absent>")) + " restored=" + (aLonger ? std::string("<absent>") : e.second);
+	}
+	if (result.empty()) return result;
+	// further observables reported by BOTH objects with different values (looked up by name: the lists may have diverged)
+	std::map<std::string, std::string> bm;
+	for (std::size_t i = 0; i != b.items.size(); ++i) bm.insert(b.items[i]);
+	std::string first = stripIdx(k < a.items.size() ? a.items[k].first : std::string());
+	std::vector<std::string> also;
+	for (std::size_t i = 0; i != a.items.size(); ++i) {
+		std::map<std::string, std::string>::const_iterator it = bm.find(a.items[i].first);
+		if (it == bm.end() || it->second == a.items[i].second) continue;
+		std::string nm = stripIdx(a.items[i].first);
+		if (nm == first) continue;
+		bool seen = false;
+		for (std::size_t j = 0; j != also.size(); ++j) seen = seen || also[j] == nm;
+		if (!seen && also.size() < 12) also.push_back(nm);
+	}
+	if (!also.empty()) {
+		result += " also=";
+		for (std::size_t j = 0; j != also.size(); ++j) result += (j ? "|" : "") + also[j];
+	}
+	return result;
 }
 
 static std::string oneLine(std::string s) {
@@ -101,28 +155,16 @@ int main(int argc, char** argv) {
 		std::uint64_t seed = std::strtoull(seedStr.c_str(), 0, 10);
 
 		std::string result;
+		// the context lives on the heap and outlives a crash of the case: what was recorded before is still compared
+		Ctx* volatile ctxp = new Ctx(fmt == "bin", seed);
 		if (sigsetjmp(g_jmp, 1) == 0) {
 			g_inCase = 1;
 			try {
-				Ctx ctx(fmt == "bin", seed);
+				Ctx& ctx = *ctxp;
 				found->fn(ctx, variant);
-				Obs const& a = ctx.A; Obs const& b = ctx.B;
-				std::size_t n = a.items.size() < b.items.size() ? a.items.size() : b.items.size();
-				std::size_t k = 0;
-				for (; k != n; ++k)
-					if (a.items[k].first != b.items[k].first || a.items[k].second != b.items[k].second) break;
-				if (k != n) {
-					if (a.items[k].first == b.items[k].first)
-						result = "DIFF " + a.items[k].first + ": orig=" + a.items[k].second + " restored=" + b.items[k].second;
-					else // the two observable lists diverge structurally (e.g. different sizes reported earlier)
-						result = "DIFF " + a.items[k].first + ": orig=" + a.items[k].second + " restored=<" + b.items[k].first + "=" + b.items[k].second + ">";
-				} else if (a.items.size() != b.items.size()) {
-					bool aLonger = a.items.size() > b.items.size();
-					std::pair<std::string, std::string> const& e = aLonger ? a.items[n] : b.items[n];
-					result = "DIFF " + e.first + ": orig=" + (aLonger ? e.second : std::string("<absent>")) + " restored=" + (aLonger ? std::string("<absent>") : e.second);
-				} else {
-					result = "OK n=" + std::to_string(n);
-				}
+				std::size_t n = 0;
+				result = compareObs(ctx.A, ctx.B, true, n);
+				if (result.empty()) result = "OK n=" + std::to_string(n);
 				if (!ctx.note.empty()) result += " note=" + ctx.note;
 			} catch (std::exception const& e) {
 				result = "EXC " + oneLine(e.what());
@@ -131,12 +173,17 @@ int main(int argc, char** argv) {
 				result = "EXC unknown-exception-type";
 			}
 			g_inCase = 0;
+			delete ctxp;
 		} else {
 			g_inCase = 0;
 			result = "CRASH sig=" + std::to_string((int)g_sig);
+			// a difference recorded before the crash is the more precise report (the context is leaked on purpose)
+			std::size_t n = 0;
+			std::string d = compareObs(ctxp->A, ctxp->B, false, n);
+			if (!d.empty()) result = d + " then=CRASH-sig=" + std::to_string((int)g_sig);
 		}
 		std::cout << result << std::endl;
-		if (result.compare(0, 5, "CRASH") == 0) {
+		if (result.compare(0, 5, "CRASH") == 0 || result.find(" then=CRASH-sig=") != std::string::npos) {
 			// continue in a clean process image
 			std::string n = std::to_string(lineNo);
 			char* args[4] = {argv[0], argv[1], const_cast<char*>(n.c_str()), 0};
